@@ -880,6 +880,7 @@ static void DecodeSELECT(Word MayATN) {
                         if (!mSymbolQuestionable(Flags)
                             && ((Dist > 0x7fffff) || (Dist < -0x800000))) {
                             WrError(ErrNum_JmpDistTooBig);
+                            OK = False;
                         } else {
                             DAsmCode[1] = Dist & 0xffffff;
                         }
